@@ -299,6 +299,8 @@ def touched_tables(specs, muts, schema):
     tables of models that are merely CREATED along the way - has no excuse to differ between two paths."""
     names = set()
     for m in muts:
+        if m['t'] == 'ChangeMeta' and m.get('prop') in ('unique_together', 'index_together', 'indexes'):
+            continue        # CREATE / DROP INDEX only: such a mutation rebuilds nothing
         for k in ('model', 'old', 'new'):
             if m.get(k) and m['t'] != 'RenameField' or (k == 'model' and m.get(k)):
                 names.add(m[k])
